@@ -144,17 +144,24 @@ def make_stub_class():
     return StubPredictor
 
 
-def gen_head_spec(rng, head):
+def gen_head_spec(rng, head, tail=False):
+    """tail=True: every fantasy column many predictive standard deviations WORSE than its incumbent,
+    u = (incumbent - mean - jitter) / std in [-12, -5] (sometimes down to -30): the lower tail of Phi"""
     nf = rng.choice([1, 1, 2, 3, 5])
     std = rng.choice([rng.uniform(0.05, 3.0), rng.uniform(0.05, 3.0), rng.uniform(0.3, 1.0), 10 ** rng.uniform(-2, 1)])
-    if rng.random() < 0.04:
+    if rng.random() < 0.04 and not tail:
         std = rng.choice([5e-11, 1e-12, 0.0])  # below the clamp of get_quantiles
     means = [rng.gauss(0, 2) for _ in range(nf)]
     s_eff = max(std, STD_MIN) if std >= 1e-3 else 1.0
     nobs = rng.randint(1, 4)
+    jitter = rng.choice([0.01, 0.01, 0.0, 0.1])
     cand = [[m + s_eff * rng.uniform(-1.5, 2.5) for m in means] for _ in range(nobs)]
+    if tail:
+        ut = [rng.choice([rng.uniform(-12, -5), rng.uniform(-9, -7), rng.uniform(-12, -7), rng.uniform(-30, -12)])
+              for _ in means]
+        cand = [[m + jitter + u * std for m, u in zip(means, ut)]]
     spec = dict(head=head, nf=nf, means=means, std=std, cand=cand, mean_2d=rng.random() < 0.5,
-                jitter=rng.choice([0.01, 0.01, 0.0, 0.1]))
+                jitter=jitter, tail=bool(tail))
     if head == "lcb":
         spec["kappa"] = rng.choice([1.0, 0.3, 2.5, rng.uniform(0.1, 4)])
     if head in ("eipu", "cei"):
@@ -319,22 +326,52 @@ def run_heads(ctx, specs):
                     fd_check("dh_dmean_constr[%d]" % k, "means_c", k, spec["means_c"][k], float(gc["mean"][k]))
                 fd_check("dh_dstd_constr", "std_c", 0, spec["std_c"], float(gc["std"][0]), lo=0.0)
 
-        # ---- independent checker 3: EI is never negative and equals E[max(0, best - jitter - Y)] --
-        if head == "ei":
-            if out["v1"] > 0.0:
-                ctx.violation("property", "EI head value %r > 0 (expected improvement negative)" % out["v1"],
-                              case=case, signature=dict(sig, defect="ei_negative"))
-            if not clamp_std and spec["std"] >= 0.05:
-                acc = 0.0
-                for j in range(nf):
-                    t = bests[j] - spec["jitter"]
-                    val, _ = integrate.quad(lambda y: (t - y) * norm.pdf(y, means[j], s_eff),
-                                            min(t, means[j]) - 12 * s_eff, t, epsabs=1e-13, epsrel=1e-11, limit=200)
-                    acc += val
-                closed = acc / nf
-                if not abs(-out["v1"] - closed) <= 1e-7 * max(1.0, abs(closed)):
-                    ctx.violation("property", "EI head %r differs from integrated E[max(0,.)] = %r" % (-out["v1"], closed),
-                                  case=case, signature=dict(sig, defect="ei_closed_form"))
+        # ---- independent checker 3: EI is never negative and equals its closed form --------------
+        if head in ("ei", "eipu", "cei") and out["v1"] > 0.0:
+            ctx.violation("property", "%s head value %r > 0 (expected improvement negative)" % (head, out["v1"]),
+                          case=case, signature=dict(sig, defect="ei_negative"))
+        if head == "ei" and not clamp_std and spec["std"] >= 0.05 and not spec.get("tail"):
+            acc = 0.0
+            for j in range(nf):
+                t = bests[j] - spec["jitter"]
+                val, _ = integrate.quad(lambda y: (t - y) * norm.pdf(y, means[j], s_eff),
+                                        min(t, means[j]) - 12 * s_eff, t, epsabs=1e-13, epsrel=1e-11, limit=200)
+                acc += val
+            closed = acc / nf
+            if not abs(-out["v1"] - closed) <= 1e-7 * max(1.0, abs(closed)):
+                ctx.violation("property", "EI head %r differs from integrated E[max(0,.)] = %r" % (-out["v1"], closed),
+                              case=case, signature=dict(sig, defect="ei_closed_form"))
+        if head in ("ei", "eipu", "cei") and not clamp_std:
+            # RELATIVE comparison with the closed form s (u Phi(u) + phi(u)) evaluated with the tail-accurate
+            # scipy.special.ndtr (absolute errors of order 1e-16 in Phi are visible for u << 0), and of
+            # dh/dmean against the tail-accurate Phi
+            from scipy.special import ndtr
+            Nn = max(nf, nf2) if head != "ei" else nf
+            bm_, bb_ = bcast(means, Nn), bcast(bests, Nn)
+            feas_ = ~np.isnan(bb_)
+            u_ = (np.where(feas_, bb_, 0.0) - bm_ - spec["jitter"]) / s_eff
+            ei_ = s_eff * (u_ * ndtr(u_) + norm.pdf(u_))
+            if head == "eipu":
+                w_ = np.power(np.maximum(bcast(spec["costs"], Nn), M.MIN_COST), -spec["expo"])
+            elif head == "cei":
+                w_ = ndtr(-bcast(spec["means_c"], Nn) / (spec["std_c"] + M.MIN_STD_CONSTRAINT))
+            else:
+                w_ = np.ones(Nn)
+            terms = np.where(feas_, ei_ * w_, w_)
+            closed = float(np.mean(terms))
+            umin = float(np.min(np.where(feas_, u_, 0.0)))
+            ctx.h("u_quantile_min", "<-12" if umin < -12 else "<-7" if umin < -7 else "<-4" if umin < -4 else ">=-4")
+            if not abs(-out["v1"] - closed) <= 1e-6 * abs(closed) + 1e-300:
+                ctx.violation("property", "%s: head value %r deviates RELATIVELY from the closed form %r (min u = %.3f)" % (
+                    head, -out["v1"], closed, umin), case=case,
+                    signature=dict(sig, defect="ei_closed_form_relative", tail=bool(umin < -6)))
+            dm_terms = np.where(feas_, ndtr(u_) * w_, 0.0)
+            exp_dm = dm_terms / nf if nf > 1 else np.array([float(np.mean(dm_terms))])
+            got_dm = np.asarray(ga["mean"], dtype=float).reshape(-1)
+            if got_dm.shape != exp_dm.shape or not np.all(np.abs(got_dm - exp_dm) <= 1e-6 * np.abs(exp_dm) + 1e-300):
+                ctx.violation("property", "%s: dh/dmean %r deviates RELATIVELY from the tail-accurate Phi(u) form %r (min u = %.3f)" % (
+                    head, got_dm.tolist(), exp_dm.tolist(), umin), case=case,
+                    signature=dict(sig, defect="dh_dmean_relative", tail=bool(umin < -6)))
 
         # ---- correspondence with the PrimFloat evaluation of model/AcqHead.v --------------------
         C = cfg_term(M, spec)
@@ -481,6 +518,12 @@ def run_chol(ctx, specs):
 # --------------------------------------------------------------------------
 # real GP: acquisition functions through the posterior, and the fitting objective
 # --------------------------------------------------------------------------
+def gen_gp_tail_spec(rng):
+    spec = gen_gp_spec(rng)
+    spec.update(head="ei", explicit=False, tail=rng.uniform(-11.0, -7.5))
+    return spec
+
+
 def gen_gp_spec(rng):
     d = rng.choice([1, 2, 3])
     n = rng.randint(3, 6)
@@ -489,6 +532,14 @@ def gen_gp_spec(rng):
                 expo=rng.choice([1.0, 0.5]), jitter=rng.choice([0.01, 0.1]),
                 x=[rng.uniform(0.05, 0.95) for _ in range(d)], normalize=rng.random() < 0.7,
                 explicit=rng.random() < 0.5)
+
+
+def gp_observed(spec):
+    """the observed configurations and active-metric values build_gp_predictor / _gp_models generate for [spec]"""
+    rs = np.random.RandomState(spec["seed"])
+    X = [tuple(float(v) for v in rs.uniform(size=spec["d"])) for _ in range(spec["n"])]
+    w = np.random.RandomState(spec["seed"] + 7).normal(size=spec["d"])
+    return X, [3.0 * float(np.sum(w * np.array(x))) + float(np.sum(np.array(x) ** 2)) for x in X]
 
 
 def build_gp_predictor(spec, metric, fn, seed_shift=0):
@@ -550,8 +601,8 @@ def check_acq_gradient(ctx, acq, x, kw, head, case, what, v_scale_tol=1e-5, h=1e
     if not abs(v1 - float(v2)) <= 1e-10 * max(1.0, abs(v1)):
         ctx.violation("property", "%s (%s): compute_acq_with_gradient value %r differs from compute_acq %r" % (
             head, what, float(v2), v1), case=case, signature=dict(sig, defect="value_mismatch"))
-    if head in ("ei", "eipu", "cei") and v1 > 1e-15:
-        ctx.violation("property", "%s (%s) acquisition value %r > 0" % (head, what, v1), case=case,
+    if head in ("ei", "eipu", "cei") and v1 > 0.0:
+        ctx.violation("property", "%s (%s) acquisition value %r > 0 (expected improvement negative)" % (head, what, v1), case=case,
                       signature=dict(sig, defect="ei_negative"))
     for i in range(x.size):
         def f(t):
@@ -580,6 +631,44 @@ def run_gp_acq(ctx, specs):
             ctx.h("gp_acq_normalize_targets", spec.get("normalize", True))
             ctx.h("gp_acq_fantasies", spec["nf"] if spec["pending"] else 1)
             ctx.h("gp_acq_predictor_arg", "explicit" if spec.get("explicit") else "default")
+            if head == "ei":
+                from scipy.special import ndtr
+                from scipy.stats import norm as _norm
+
+                def quantiles(xx):
+                    pr = P1.predict(np.asarray(xx, dtype=float).reshape(1, -1))[0]
+                    m = np.asarray(pr["mean"], dtype=float).reshape(-1)
+                    sd = float(np.asarray(pr["std"]).reshape(-1)[0])
+                    b = np.asarray(P1.current_best()[0], dtype=float).reshape(-1)
+                    return (b - m - spec["jitter"]) / sd, sd
+                if spec.get("tail") and not spec.get("tail_placed"):
+                    # move x towards the WORST observed configuration until every fantasy column is many
+                    # predictive standard deviations worse than the incumbent: max_j u_j = target in [-11, -7.5]
+                    Xobs, yobs = gp_observed(spec)
+                    xw, target = np.array(Xobs[int(np.argmax(yobs))], dtype=float), spec["tail"]
+                    lo_t, hi_t = 0.0, 1.0
+                    if float(np.max(quantiles(xw)[0])) < target < float(np.max(quantiles(x)[0])):
+                        for _ in range(60):
+                            mid = 0.5 * (lo_t + hi_t)
+                            if float(np.max(quantiles(xw + mid * (x - xw))[0])) < target:
+                                lo_t = mid
+                            else:
+                                hi_t = mid
+                        x = xw + hi_t * (x - xw)
+                        spec["x"], spec["tail_placed"] = [float(t) for t in x], True
+                    else:
+                        spec["tail_placed"] = False
+                    ctx.h("gp_acq_tail_placement", "placed" if spec["tail_placed"] else "no bracket")
+                u_, sd_ = quantiles(x)
+                closed = float(np.mean(sd_ * (u_ * ndtr(u_) + _norm.pdf(u_))))
+                v_ = float(np.asarray(acq.compute_acq(x.reshape(1, -1))).reshape(-1)[0])
+                umin = float(np.min(u_))
+                ctx.h("gp_acq_u_min", "<-12" if umin < -12 else "<-7" if umin < -7 else "<-4" if umin < -4 else ">=-4")
+                if not abs(-v_ - closed) <= 1e-6 * abs(closed) + 1e-300:
+                    ctx.violation("property", "ei on a fitted GP: -compute_acq = %r deviates RELATIVELY from the closed form %r "
+                                  "computed from predict() / current_best() (min u = %.3f)" % (-v_, closed, umin), case=case,
+                                  signature=dict(function="compute_acq", head=head, defect="ei_closed_form_relative",
+                                                 tail=bool(umin < -6)))
             check_acq_gradient(ctx, acq, x, {}, head, case, "default predictor")
             if spec.get("explicit"):
                 # the documented optional argument: evaluate the SAME acquisition object on another fitted
@@ -812,7 +901,9 @@ def run(ctx, replay=None):
                 "(mean, std, cost / constraint) fantasy arrays (nf 1..5, broadcasting both ways, clamped std/cost, "
                 "infeasible columns), compute_acq vs compute_acq_with_gradient vs PrimFloat model; (b) "
                 "cholesky_factorization_backward / AddJitterOp_vjp on random lower-triangular L (n 1..6) vs the "
-                "executable model; (c) the same acquisition classes on tiny fitted GPs, with the default predictor and "
+                "executable model; head and GP cases include inputs many predictive standard deviations worse than the "
+                "incumbent (u down to -12 / -30), EI >= 0 checked exactly and EI / dh/dmean RELATIVELY (1e-6) against the "
+                "tail-accurate closed form; (c) the same acquisition classes on tiny fitted GPs, with the default predictor and "
                 "with an explicit predictor= argument (a second fitted surrogate), (a2) the same on locally linear "
                 "stub predictors with exact Jacobians, and (d) the scipy fitting objective at random interior points, "
                 "at every branch point of the Box-Cox case distinction (lambda in {0, +-5e-8, +-1e-7 +- 1e-12, ...}, "
@@ -837,8 +928,10 @@ def run(ctx, replay=None):
         return
     n_head = ctx.n(250, 2500)
     specs = [gen_head_spec(rng, head) for head in ("ei", "lcb", "eipu", "cei") for _ in range(n_head)]
+    specs += [gen_head_spec(rng, head, tail=True) for head in ("ei", "eipu", "cei") for _ in range(ctx.n(60, 800))]
     run_heads(ctx, specs)
     run_chol(ctx, [gen_chol_spec(rng) for _ in range(ctx.n(200, 2000))])
-    run_gp_acq(ctx, [gen_gp_spec(rng) for _ in range(ctx.n(120, 1200))])
+    run_gp_acq(ctx, [gen_gp_spec(rng) for _ in range(ctx.n(120, 1200))] +
+               [gen_gp_tail_spec(rng) for _ in range(ctx.n(40, 400))])
     run_linear_explicit(ctx, [gen_linear_spec(rng) for _ in range(ctx.n(150, 2000))])
     run_fit_objective(ctx, [gen_fit_spec(rng, k) for k in range(ctx.n(80, 600))])
